@@ -9,7 +9,7 @@ TAG=mut-$$
 ROOT=/tmp/$TAG
 mkdir -p $ROOT
 git -C /repo worktree add -q --detach $ROOT/repo HEAD || exit 3
-( cd $ROOT/repo && git apply "$PATCH" ) || { echo "patch does not apply"; git -C /repo worktree remove --force $ROOT/repo; rm -rf $ROOT; exit 3; }
+( cd $ROOT/repo && ( git apply "$PATCH" || git apply --3way "$PATCH" ) ) || { echo "patch does not apply"; git -C /repo worktree remove --force $ROOT/repo; rm -rf $ROOT; exit 3; }
 rsync -a --exclude harness/target --exclude .git --exclude '.work/*/cases*' /verif/ $ROOT/verif/
 sed -i "s#/repo/datasketches#$ROOT/repo/datasketches#" $ROOT/verif/harness/Cargo.toml
 cp $ROOT/repo/Cargo.lock $ROOT/verif/harness/Cargo.lock 2>/dev/null
